@@ -70,6 +70,11 @@ func MapHas(m map[string]string, k string) bool   { panic("intrinsic") }
 func StrPtrEq(a, b *string) bool               { panic("intrinsic") }
 func Int64PtrEq(a, b *int64) bool              { panic("intrinsic") }
 func HasPrefix(s, p string) bool               { panic("intrinsic") }
+func StrPtrVal(p *string) string               { panic("intrinsic") }
+func Int64PtrVal(p *int64) int64               { panic("intrinsic") }
+func IsNil(p any) bool                         { panic("intrinsic") }
+func Restore(snap int)                         { panic("intrinsic") }
+func SetDialect(d string)                      { panic("intrinsic") }
 
 // database
 func DB(backend string) *sql.DB                { panic("intrinsic") }
